@@ -211,7 +211,7 @@ def run_gcstress(pid, out, stats, seeds):
         if line.split()[1] != "ok":
             out.violation({"property": pid, "gcstress": sd, "signature": "CONC/gc-deadlock",
                            "what": "commands stopped completing while background gc / flush passes ran: " + line,
-                           "readable": ["vh gcstress --seed %d: 8 goroutines x 4000 commands (RPUSH, LPOP, DEL, INCR, RPOPLPUSH lk0 lk9, LLEN, explicit gc and flush) on 3 list keys and 3 string keys, GCDuration 1 ms" % sd],
+                           "readable": ["vh gcstress --seed %d: 8 goroutines x 4000 commands (RPUSH, LPOP, DEL, INCR, RPOPLPUSH lk0 lk9, LLEN, KEYS, SCAN, EXISTS k k, PEXPIRE 1 ms, explicit gc and flush) on 3 list keys and 3 string keys, GCDuration 1 ms" % sd],
                            "replay_cmd": "bin/check %s --replay <this file>" % pid})
             return
 
